@@ -115,6 +115,38 @@ fn check_thread(fam: Fam, n: usize, who: &str, v: &[Vec<u64>]) -> Result<(), Fai
             });
         }
     }
+    // every draw depends on every variable: for x_i the number of assignment pairs (x_i = 0 / 1)
+    // on which the draw differs is Binomial(2^(n-1), 1/2); n >= 10: at least a quarter of the
+    // expected count is required (Hoeffding: < e^-64 per variable and draw), n in 7..=9: at least
+    // one (2^-64 at n = 7). A table that repeats its first words is independent of the top variables.
+    if n >= 7 {
+        for (k, b) in v.iter().enumerate() {
+            for i in 0..n {
+                let mut d = 0usize;
+                if i < 6 {
+                    let sh = 1u32 << i;
+                    let keep = [0x5555_5555_5555_5555u64, 0x3333_3333_3333_3333, 0x0f0f_0f0f_0f0f_0f0f, 0x00ff_00ff_00ff_00ff, 0x0000_ffff_0000_ffff, 0x0000_0000_ffff_ffff][i];
+                    for w in b.iter() {
+                        d += (((w >> sh) ^ w) & keep).count_ones() as usize;
+                    }
+                } else {
+                    let stride = 1usize << (i - 6);
+                    for w in 0..words {
+                        if w & stride == 0 {
+                            d += (b[w] ^ b[w | stride]).count_ones() as usize;
+                        }
+                    }
+                }
+                let need = if n >= 10 { (bits / 2) / 8 } else { 1 };
+                if d < need {
+                    return Err(Fail {
+                        sig: "independent-of-variable".into(),
+                        msg: format!("{}::random(n={}) on {}: draw #{} differs on only {} of the {} assignment pairs of variable x{} (expected about {})", fam.label(), n, who, k, d, bits / 2, i, bits / 4),
+                    });
+                }
+            }
+        }
+    }
     // draws differ from one another
     let distinct: std::collections::HashSet<&Vec<u64>> = v.iter().collect();
     if distinct.len() == 1 {
@@ -198,8 +230,12 @@ fn enumerate(t: Tier, shard: usize, nshards: usize, f: &mut dyn FnMut(Case) -> b
     // thorough repeats the whole sweep several times (fresh draws each time)
     for rep in 0..t.pick(4usize, 16) {
         for fam in [Fam::Dyn, Fam::Static] {
-            for n in 0..=12usize {
+            // the dynamic type has no size limit: four sizes beyond the stated sample, main thread only
+            for n in 0..=(if fam == Fam::Dyn { 16usize } else { 12 }) {
                 for threads in [1usize, THREADS] {
+                    if n > 12 && (threads != 1 || rep >= 2) {
+                        continue;
+                    }
                     if sc.mine() && !f(Case { fam, n, threads, rep }) {
                         return;
                     }
@@ -212,7 +248,7 @@ fn enumerate(t: Tier, shard: usize, nshards: usize, f: &mut dyn FnMut(Case) -> b
 pub fn def() -> PropDef {
     PropDef {
         id: "C19",
-        rule: "cases = (family, n in 0..=12, thread count in {1, 16}); the inputs are random()'s own draws: 256 draws on the main thread, and 256 draws on each of 16 threads released together by a barrier. Every draw must be well formed (block count, no bit >= 2^n, value() consistent with blocks()); per thread, every assignment must receive both values among the 256 draws, the draws must not all be equal, must span a subspace of GF(2)^(2^n) of dimension >= min(256, 2^n) - 24 (n >= 5), must be pairwise distinct for n >= 8 (at most one repeat for n = 7); no two threads may produce the same sequence for n >= 3, and for n >= 8 no table may repeat across threads. All (family, n, threads) combinations are swept 4 times (quick) or 16 times (thorough): 208 resp. 832 sweeps of 256 draws per thread. Every case is non-trivial (distinct by family, n, threads); evaluations counts sweeps, the evidence also reports draws.",
+        rule: "cases = (family, n in 0..=12 — Lut also 13..=16 on the main thread —, thread count in {1, 16}); the inputs are random()'s own draws: 256 draws on the main thread, and 256 draws on each of 16 threads released together by a barrier. Every draw must be well formed (block count, no bit >= 2^n, value() consistent with blocks()); per thread, every assignment must receive both values among the 256 draws, the draws must not all be equal, must span a subspace of GF(2)^(2^n) of dimension >= min(256, 2^n) - 24 (n >= 5), every draw must depend on every variable (n >= 7; n >= 10: differ on at least 1/8 of the assignment pairs of each variable), the draws must be pairwise distinct for n >= 8 (at most one repeat for n = 7); no two threads may produce the same sequence for n >= 3, and for n >= 8 no table may repeat across threads. All (family, n, threads) combinations are swept 4 times (quick) or 16 times (thorough): 208 resp. 832 sweeps of 256 draws per thread. Every case is non-trivial (distinct by family, n, threads); evaluations counts sweeps, the evidence also reports draws.",
         assumptions: vec![
             "statistical: thresholds chosen so that a fair generator raises an alarm with probability < 2^-200 per run",
             "thread_rng cannot be seeded: VERIF_SEED only labels the run; schedules are explored as `16 threads started together`",
